@@ -10,16 +10,16 @@ package main
 // exact, and two abstract strings are equal iff their normal forms are.  Maps are keyed by the normal form.
 
 import (
-	"unicode"
-	"net/textproto"
-	"path"
-	"strconv"
 	"fmt"
-	"net"
-	"sort"
 	"go/token"
 	"go/types"
+	"net"
+	"net/textproto"
+	"path"
+	"sort"
+	"strconv"
 	"strings"
+	"unicode"
 
 	"golang.org/x/tools/go/ssa"
 )
@@ -75,10 +75,10 @@ type amapData struct {
 	typ  *types.Map
 }
 
-func symLabel(name string) aval  { return astrv{[]atom{{sym: name}}} }
-func symByte(name string) atom   { return atom{sym: name, byte1: true} }
-func litAtoms(s string) []atom   { return []atom{{lit: s}} }
-func strOf(atoms ...atom) aval   { return mkStr(atoms) }
+func symLabel(name string) aval { return astrv{[]atom{{sym: name}}} }
+func symByte(name string) atom  { return atom{sym: name, byte1: true} }
+func litAtoms(s string) []atom  { return []atom{{lit: s}} }
+func strOf(atoms ...atom) aval  { return mkStr(atoms) }
 func concatStr(parts ...aval) aval {
 	var all []atom
 	for _, p := range parts {
@@ -1012,6 +1012,12 @@ func (e *absEnv) instrStr(fr *absFrame, in ssa.Instruction) bool {
 				keys = append(keys, k)
 			}
 			sort.Strings(keys)
+			if e.mapRev {
+				// the other walk: what must not depend on map order is evaluated under both
+				for i, j := 0, len(keys)-1; i < j; i, j = i+1, j-1 {
+					keys[i], keys[j] = keys[j], keys[i]
+				}
+			}
 			fr.regs[t] = &amapIter{m: m, keys: keys}
 			return true
 		}
@@ -1329,6 +1335,15 @@ func (e *absEnv) stdCall(fr *absFrame, name string, args []aval, depth int) (ava
 			}
 			return atuple{aint(0), aiface{aptr{&aobj{name: "strconv error", typ: types.Typ[types.Int], f: map[string]aval{}}, ""}, types.Typ[types.Int]}}, true
 		}
+	case "strconv.ParseFloat":
+		if a, ok := args[0].(astr); ok && len(args) == 2 {
+			if z, ok := args[1].(aint); ok {
+				if v, err := strconv.ParseFloat(string(a), int(z)); err == nil {
+					return atuple{afloat(v), anil{}}, true
+				}
+				return atuple{afloat(0), aiface{aptr{&aobj{name: "strconv error", typ: types.Typ[types.Int], f: map[string]aval{}}, ""}, types.Typ[types.Int]}}, true
+			}
+		}
 	case "strconv.ParseInt":
 		if a, ok := args[0].(astr); ok && len(args) == 3 {
 			b, ok1 := args[1].(aint)
@@ -1595,7 +1610,6 @@ func strIndexAt(s aval, pos aval) (aval, bool) {
 	}
 	return aint(a.lit[off]), true
 }
-
 
 // ifaceVal: the dynamic value of an interface value (map keys of type interface{} are compared by it).
 func ifaceVal(v aval) aval {
